@@ -698,4 +698,12 @@ N('R-axis-test-flipped-form', ['C15'], 'frame.py', 'Frame.iloc_max',
   '        if axis == 0:\n            return Series(post, index=immutable_index_filter(self._columns))\n        return Series(post, index=self._index)',
   '        if axis == 1:\n            return Series(post, index=self._index)\n        return Series(post, index=immutable_index_filter(self._columns))')
 
+# ---------------------------------------------------------------------------------- option forwarding (C16)
+B('FW-store-filter-dropped', ['C16'], 'frame.py', 'Frame.from_delimited',
+  '                store_filter=store_filter,\n', '', 'I.same-name-forwarding', 'from_delimited')
+B('FW-csv-quote-char-dropped', ['C16'], 'frame.py', 'Frame.from_csv',
+  '                quote_char=quote_char,\n', '', 'I.same-name-forwarding', 'from_csv')
+N('FW-keyword-to-position', ['C16'], 'frame.py', 'Frame.from_tsv',
+  'return cls.from_delimited(fp,', 'return cls.from_delimited(fp=fp,')
+
 VARIANTS = V
